@@ -3,6 +3,7 @@ package main
 // Calls: builtins, externals, inlining, modular contract application, effect analysis.
 
 import (
+	"sync"
 	"go/token"
 	"fmt"
 	"go/types"
@@ -196,6 +197,14 @@ func (x *fnExec) staticCall(fr *frame, st *State, ci ssa.CallInstruction, res ss
 		return
 	}
 	// no contract: havoc by inferred effects
+	if fr.safety && len(args) > 0 && args[0].K == VPtr && args[0].Idx == nil && fn.Signature.Recv() != nil && derefsReceiver(fn) {
+		// the callee's body is not executed here, but it dereferences its receiver: a nil receiver panics inside it
+		g := Not(Eq(args[0].Ref, BVU(0, 64)))
+		if g != True {
+			x.obligation(st, x.safetyName("nil"), "safe", "nil receiver for "+key+" (which dereferences it) at "+x.P.Fset.Position(ci.Pos()).String()+" in "+funcKey(fr.fn), nil, g, nil, "")
+			x.assume(st, g)
+		}
+	}
 	eff := x.P.effectsOf(fn)
 	x.applyEffects(st, eff, "call "+key, fn, args)
 	x.abstracted[key] = true
@@ -1244,4 +1253,53 @@ func (c *Contract) usableAtCalls() bool {
 		}
 	}
 	return true
+}
+
+var derefsRecvMemo = map[*ssa.Function]bool{}
+var derefsRecvMu sync.Mutex
+
+// derefsReceiver: the method (or a closure it creates) takes the address of a field of a value of the receiver's type and
+// never compares a value of that type with nil — i.e. it cannot be called on a nil receiver.
+func derefsReceiver(fn *ssa.Function) bool {
+	derefsRecvMu.Lock()
+	defer derefsRecvMu.Unlock()
+	if v, ok := derefsRecvMemo[fn]; ok {
+		return v
+	}
+	res := false
+	if len(fn.Params) > 0 && len(fn.Blocks) > 0 {
+		rt := fn.Params[0].Type()
+		if _, isPtr := rt.Underlying().(*types.Pointer); isPtr {
+			deref, guarded := false, false
+			var scan func(f *ssa.Function)
+			scan = func(f *ssa.Function) {
+				for _, b := range f.Blocks {
+					for _, in := range b.Instrs {
+						switch t := in.(type) {
+						case *ssa.FieldAddr:
+							if types.Identical(t.X.Type(), rt) {
+								deref = true
+							}
+						case *ssa.BinOp:
+							if (t.Op == token.EQL || t.Op == token.NEQ) && types.Identical(t.X.Type(), rt) {
+								if c, ok := t.Y.(*ssa.Const); ok && c.IsNil() {
+									guarded = true
+								}
+								if c, ok := t.X.(*ssa.Const); ok && c.IsNil() {
+									guarded = true
+								}
+							}
+						}
+					}
+				}
+				for _, af := range f.AnonFuncs {
+					scan(af)
+				}
+			}
+			scan(fn)
+			res = deref && !guarded
+		}
+	}
+	derefsRecvMemo[fn] = res
+	return res
 }
